@@ -44,7 +44,7 @@ OBJECTS = {
     "gmlc::concurrency::SearchableObjectHolder": ("SearchableObjectHolder<CX, int> o;", False),
 }
 
-FUNCTORS = ["VoidMod{}", "ValMod{}", "VoidRead{}", "ValRead{}", "RefMod{}", "GenericMod{}", "BoolMod{}", "BoolRead{}", "RetP{}",
+FUNCTORS = ["VoidMod{}", "ValMod{}", "VoidRead{}", "ValRead{}", "GenericMod{}", "BoolMod{}", "BoolRead{}", "RetP{}",
             "A0{}", "A0b{}", "GV", "GB"]
 PAYLOADS = ["p", "P(p)", "q", "cx", "CX(cx)"]
 TIMES = ["ms(1)", "tp{}", "std::chrono::system_clock::time_point{}"]
@@ -101,20 +101,51 @@ def argument_lists(params, cap=48):
     return out[:cap * 3]
 
 
-def synthesize(missing, verif, outdir):
+OPS = {"operator==": "==", "operator!=": "!=", "operator<": "<", "operator<=": "<=", "operator>": ">", "operator>=": ">="}
+
+
+def _template_like(p):
+    return any(re.match(r"^(const )?[A-Z]\w*( ?&&?| ?\.\.\.)?( ?\.\.\.)?$", x.strip()) and
+               x.strip().split()[0].rstrip("&.") not in ("T", "M", "X", "Y") for x in p.get("params", []))
+
+
+def synthesize(missing, verif, outdir, all_patterns=()):
     """missing: pattern records (dict with rec, name, params, constm).  Returns the path of the generated source, or
     None when nothing can be generated for them."""
     groups = {}
+    sweep = False
+    free = sorted({p["name"] for p in missing if not (p.get("rec") or "") and re.match(r"^[A-Za-z_]\w*$", p["name"])})
     for p in missing:
         rec = p.get("rec") or ""
-        if rec not in OBJECTS or p.get("access", "public") != "public":
+        if rec not in OBJECTS:
+            # a free function template (or a member of a helper class): it is reached through the public member
+            # templates of the classes, instantiated for every mutex type
+            sweep = True
             continue
-        if p["name"].startswith("operator") or p["name"].startswith("~") or p["name"] == rec.split("::")[-1]:
+        if p.get("access", "public") != "public":
+            sweep = True
+            continue
+        if p["name"].startswith("~") or p["name"] == rec.split("::")[-1]:
+            continue
+        if p["name"].startswith("operator") and p["name"] not in OPS:
             continue
         groups.setdefault(rec, []).append(p)
+    if sweep:
+        seen = {(p.get("rec"), p["name"], tuple(p.get("params", []))) for ps in groups.values() for p in ps}
+        for p in all_patterns:
+            rec = p.get("rec") or ""
+            if rec in OBJECTS and p.get("access") == "public" and not p.get("lambda") and not p["name"].startswith(("operator", "~")) \
+                    and p["name"] != rec.split("::")[-1] and _template_like(p):
+                k = (rec, p["name"], tuple(p.get("params", [])))
+                if k not in seen:
+                    seen.add(k)
+                    groups.setdefault(rec, []).append(p)
+    if free:
+        for rec in OBJECTS:
+            groups.setdefault(rec, [])
     if not groups:
         return None
-    names = sorted({p["name"] for ps in groups.values() for p in ps})
+    names = sorted({p["name"] for ps in groups.values() for p in ps if not p["name"].startswith("operator")})
     L = []
     L.append("// generated by rules/autodrive.py - calls of library members the hand-written driver does not reach")
     L.append("#define VERIF_AUTO 1")
@@ -135,6 +166,20 @@ def synthesize(missing, verif, outdir):
                  " { (void)o.%s(std::forward<A>(a)...); }" % (n, n))
         L.append("    template<class O, class... A> static void call(long, O&, A&&...) {}")
         L.append("};")
+    L.append("using namespace gmlc::libguarded;\nusing namespace gmlc::concurrency;")
+    for n in free:
+        L.append("struct try_free_%s {" % n)
+        L.append("    template<class... A> static auto call(int, A&&... a) -> decltype((void)%s(std::forward<A>(a)...))"
+                 " { (void)%s(std::forward<A>(a)...); }" % (n, n))
+        L.append("    template<class... A> static void call(long, A&&...) {}")
+        L.append("};")
+    for nm, op in sorted(OPS.items()):
+        tag = "op_" + re.sub(r"\W", lambda m: "%02x" % ord(m.group(0)), op)
+        L.append("struct try_%s {" % tag)
+        L.append("    template<class O, class A> static auto call(int, O& o, A&& a) -> decltype((void)(o %s std::forward<A>(a)))"
+                 " { (void)(o %s std::forward<A>(a)); }" % (op, op))
+        L.append("    template<class O, class A> static void call(long, O&, A&&) {}")
+        L.append("};")
     fi = 0
     insts = []
     for rec, ps in sorted(groups.items()):
@@ -144,7 +189,14 @@ def synthesize(missing, verif, outdir):
         L.append("    P p{}; P q(p); CX cx{}; const std::string key(\"k\"); std::shared_ptr<CX> sp; (void)q; (void)cx; (void)sp;")
         L.append("    " + decl)
         L.append("    const auto& co = o; (void)co;")
+        for n in free:
+            L.append("    { auto& o2 = o; try_free_%s::call(0, o, o2); try_free_%s::call(0, o); try_free_%s::call(0, o, p); }" % (n, n, n))
         for p in ps:
+            if p["name"] in OPS:
+                tag = "op_" + re.sub(r"\W", lambda m: "%02x" % ord(m.group(0)), OPS[p["name"]])
+                for a in PAYLOADS + ["o", "co", "1"]:
+                    L.append("    try_%s::call(0, %s, %s);" % (tag, "co" if p.get("constm") else "o", a))
+                continue
             for args in argument_lists(p.get("params", [])):
                 a = ", ".join(args)
                 L.append("    try_%s::call(0, %s%s%s);" % (p["name"], "co" if p.get("constm") else "o", ", " if a else "", a))
